@@ -161,7 +161,7 @@ def run(ctx):
     runs = []
     for c in cases:
         runs.append(dict(id=c["id"], sched=0))
-    racy = [c for c in cases if _can_race(c) and len(c["plan"]) == 1 and c["conc"] == 1]
+    racy = [c for c in cases if _can_race(c) and len(c["plan"]) == 1 and c["conc"] == 1 and c["pin"] == "no"]
     multi = [c for c in cases if len(c["plan"]) > 1]
     # re-executed Query values also under racing schedules (a prefetch of an abandoned iterator under way)
     racy += [c for c in multi if _can_race(c)]
@@ -173,8 +173,9 @@ def run(ctx):
     for k, r in enumerate(runs):
         r["run"] = k + 1
         c = byid[r["id"]]
-        for f in ("pages", "q", "kind", "fail", "mode", "start", "prep", "skip", "size", "plan", "rebind", "opt", "conc"):
+        for f in ("pages", "q", "kind", "fail", "mode", "start", "prep", "skip", "size", "plan", "rebind", "opt", "conc", "pin"):
             r[f] = c[f]
+        r["starts"] = [x["start"] for x in c["exp"]["execs"]]
     byrun = {r["run"]: r for r in runs}      # job number -> job
     nexec = sum(max(len(r["plan"]), r["conc"]) for r in runs)
     rp = os.path.join(ctx.tmp, "c15_runs.ndjson")
@@ -257,11 +258,14 @@ def run(ctx):
             ", skip-metadata" if run["skip"] else "", ", racing schedule %d" % run["sched"] if run["sched"] else "")
         if run.get("opt", "none") != "none":
             d += ", option " + run["opt"]
+        if run.get("pin", "no") != "no":
+            d += ", pinned to one connection of a two-node session (Conn.query)%s" % (
+                "; that connection is lost after page %d" % (run["fail"] - 1) if run["pin"] == "lost" else "")
         if run["conc"] > 1:
             d += ", one of %d goroutines iterating the same prepared statement at once (own bound key each)" % run["conc"]
         if len(run["plan"]) > 1:
             d += ", execution %d of the same Query value (plan %s: rows taken before Close, -1 = all%s)" % (
-                ex, run["plan"], "; re-Bind before each re-execution" if run["rebind"] else "")
+                ex, run["plan"], {0: "", 1: "; Bind (and PageState) again before each re-execution", 2: "; Bind(values) only before each re-execution"}[run["rebind"]])
         return d
 
     def short(l):
@@ -282,25 +286,25 @@ def run(ctx):
         diffs = []
         if ee["ended"] == "abandoned":
             # the caller stops early as planned: the rows so far, and no request that is out of line
-            if not is_prefix(res["reqs"], exp["reqs"]):
-                diffs.append("requests carried paging states %s, the property demands a prefix of %s" % (short(res["reqs"]), exp["reqs"]))
-        elif res["reqs"] != exp["reqs"]:
-            diffs.append("requests carried paging states %s, the property demands %s" % (short(res["reqs"]), exp["reqs"]))
+            if not is_prefix(res["reqs"], ee["reqs"]):
+                diffs.append("requests carried paging states %s, the property demands a prefix of %s" % (short(res["reqs"]), ee["reqs"]))
+        elif res["reqs"] != ee["reqs"]:
+            diffs.append("requests carried paging states %s, the property demands %s" % (short(res["reqs"]), ee["reqs"]))
         if len(set(res["reqf"])) > 1:
             diffs.append("the page requests differ in more than the paging state: %s" % sorted(set(res["reqf"])))
         if rows != ee["rows"]:
             diffs.append("rows %s, the property demands %s" % (short(rows), ee["rows"]))
         if res["ended"] != ee["ended"]:
             diffs.append("ended %s (%s), the property demands %s" % (res["ended"], res["errmsg"] or "no error", ee["ended"]))
-        elif res["ended"] == "error" and res["err"] != exp["err"]:
-            diffs.append("ended with %r, the failed fetch was that of page %d" % (res["errmsg"], exp["err"]))
-        if run["mode"] == "manual" and res["ended"] == "normal" and res["exposed"] != exp["exposed"]:
-            diffs.append("PageState() shows token %d, the page carried %d" % (res["exposed"], exp["exposed"]))
+        elif res["ended"] == "error" and res["err"] != ee["err"]:
+            diffs.append("ended with %r, the failed fetch was that of page %d" % (res["errmsg"], ee["err"]))
+        if run["mode"] == "manual" and res["ended"] == "normal" and res["exposed"] != ee["exposed"]:
+            diffs.append("PageState() shows token %d, the page carried %d" % (res["exposed"], ee["exposed"]))
         if res.get("changed"):
             diffs.append("%d of the rows the caller kept had other content when read again after the iteration" % res["changed"])
-        if res["qtok"] not in (-2, run["start"]):
+        if res["qtok"] not in (-2, ee["start"]):
             diffs.append("the execution left paging state token %d in the caller's Query (the caller had put in %d)" % (
-                res["qtok"], run["start"]))
+                res["qtok"], ee["start"]))
         fs = [f for f in mon.get(res["run"], [])]
         if diffs:
             mismatches += 1
@@ -317,6 +321,8 @@ def run(ctx):
                     key += "/opt-" + run["opt"]
                 if run["conc"] > 1:
                     key += "/concurrent"
+                if run.get("pin", "no") != "no":
+                    key += "/pinned-" + run["pin"]
                 if res["exec"] > 1:
                     key += "/re-executed"
                 e = viol.setdefault(key, dict(n=0, what=what, detail=dict(case=byid[run["id"]], run=run, observed=res, finding=f)))
